@@ -21,6 +21,8 @@ CLAIMED = {
    "Static, all-methods/all-sites: no exported *DB method writes through its receiver (directly or via a callee); Statement.clone carries every per-chain field (maps deep, in-place-extended slices exact-length); getInstance keeps pool/context/SkipHooks with a fresh Clauses map; Session mutates a statement only after replacing it by a clone; MergeClause never appends onto or stores into a slice it did not create; Build/NegationBuild never store into slices reachable from receiver/parameters; Execute/Update/Count/AfterQuery reset or restore temporary state. Found and fixed three genuine upstream defects (known_findings.json). Necessary conditions only: equality of SQL/Vars with an isolated replay is not decided."),
  "C07": ("4 (C07)", "custom static analysis: go/cfg event-fact dominance on the schema cache protocol, lock-set data-flow (foreign relation map, statement cache), SSA who-writes for globals and callback registry, C06 immutability rules, loop-iteration path enumeration for the scan-value pool typestate",
    "Static, narrow: decides the synchronisation protocols the code relies on - wait-before-return / LoadOrStore-after-defer-close in the schema cache, lock held for writes to another schema's relation map, no unsynchronised package-level state, callback registry written only by registration code, no writes into memory shared by all chains of a handle (C06 rules), Get/Put typestate of pooled scan values, and the C14 lock rules. General data-race freedom and equality with a serial run are NOT decided."),
+ "C08": ("4 (C08)", "custom static analysis: sibling check of all SQL-building sites with go/cfg event facts and merge implications ('applied whenever a schema is present'), SSA who-writes of Statement.Unscoped, guard facts and CFG reachability in the soft-delete modifiers",
+   "Static, all-sites: every pipeline statement build is preceded by the application of the model's Query/Update/Delete clauses; relation joins and join-table association look-ups apply the joined model's query clauses; Statement.Unscoped becomes true only through the user API, is otherwise copied from the parent, library Unscoped() calls are guarded and nested sessions propagate it; the soft-delete query modifier regroups lone-OR conditions before adding its filter, only when not Unscoped and once, with the marker; the delete modifier rewrites to a filtered UPDATE and the delete executor does not rebuild over it. Database-side precedence and third-party plugins are NOT decided."),
  "C09": ("4 (C09)", "custom static analysis: go/cfg guard-fact dominance with call-induced kills + symbolic path enumeration of the guard function + sibling check of all WHERE-adding sites",
    "Static, all-paths: every UPDATE/DELETE driver call is dominated by the missing-WHERE guard and by an Error == nil test made after it; path enumeration over the guard shows it raises ErrMissingWhereClause on some path and that every non-raising path carries AllowGlobalUpdate, an earlier error, or 'WHERE present and (soft-delete marker absent or >1 expressions)'; every WHERE clause added from user conditions or model keys is guarded by non-emptiness / non-zero key and BuildCondition yields nothing for empty input; the soft-delete filter is always paired with the marker the guard reads. Necessary conditions only: whether a user condition is effective at run time is not decided."),
  "C13": ("4 (C13)", "custom static analysis: table agreement over constants/switch labels/struct fields/interfaces/call sites, go/cfg guard facts at hook and callMethod sites, CFG reachability for order, loop-iteration path enumeration for once-per-element",
